@@ -43,9 +43,9 @@ def build(it: Interp, with_bwd: bool) -> Tuple[AbstractGraph, Dict[str, Obj]]:
         return N[name]
 
     x = mk("x", "placeholder", "x", scale="s1", gscale="g1")
-    idx = mk("idx", "placeholder", "idx", flt=False)
-    n1 = mk("neg", "call_function", E("torch.neg"), (x,), scale="s1", gscale="g1")  # same scale as x
-    n2 = mk("view", "call_method", "view", (n1, 4, -1), scale="s1", gscale="g1")  # same scale
+    idx = mk("output_ids", "placeholder", "output_ids", flt=False)  # (a user variable called output_ids: only the node named exactly "output" is the graph's output)
+    n1 = mk("output", "call_function", E("torch.neg"), (x,), scale="s1", gscale="g1")  # same scale as x; the user called this tensor `output`, so fx names the graph's output node output_1
+    n2 = mk("outputs_view", "call_method", "view", (n1, 4, -1), scale="s1", gscale="g1")  # same scale
     n2 = mk("transpose", "call_method", "transpose", (n2, 0, 1), scale="s1", gscale="g1")  # third link of a same-scale chain
     n3 = mk("cat", "call_function", E("torch.cat"), ([n2, x],), {"dim": 0}, scale="s2", gscale="g2")  # list of tensors
     n4 = mk("size", "call_method", "size", (n3, 0), flt=False)  # int output, one float input
@@ -57,7 +57,7 @@ def build(it: Interp, with_bwd: bool) -> Tuple[AbstractGraph, Dict[str, Obj]]:
     cmp_ = mk("cmp", "call_function", E("torch.eq"), (n6, n5), flt=False)  # non-float, two float inputs: no bypass
     mix = mk("mix", "call_function", E("torch.add"), (n6, n5), scale="s3", gscale="g3")  # same scale as n6 but two float inputs
     mk("aux_unused", "call_function", E("torch.mul"), (n6, 2), scale="s4", gscale="g2")  # a tracked tensor nobody consumes: must survive
-    mk("output", "output", "output", ((n9, n4, cmp_, mix),), flt=False)
+    mk("output_1", "output", "output", ((n9, n4, cmp_, mix),), flt=False)
     return g, N
 
 
@@ -126,7 +126,7 @@ def check(report: Report, repo: Repo) -> None:
         rg = res.attrs.get("_abstract_graph") if isinstance(res, Obj) else None
         report.add("R3-copy-discipline", f"{cons}::returns-copy", rg is not None and rg is not g, "returns a new graph", "copy" if rg is not None and rg is not g else fmt(res), "a copy")
         if rg is not None:
-            exp = expected(g, ["idx", "size", "cmp"], bypass=True)
+            exp = expected(g, ["output_ids", "size", "cmp"], bypass=True)
             report.add("R2-result", cons, got(rg) == exp, "nodes not producing float tensors are removed (never the output), single-float-input ones bypassed, everything else in order", got(rg), exp)
             report.add("R2-result", f"{cons}::lint", rg.linted >= 1, "result is linted", rg.linted, ">=1", nontrivial=False)
 
@@ -149,7 +149,7 @@ def check(report: Report, repo: Repo) -> None:
         rg = res.attrs.get("_abstract_graph") if isinstance(res, Obj) else None
         report.add("R3-copy-discipline", f"{cons}::returns-copy", rg is not None and rg is not g, f"{lab}: returns a new graph", "copy" if rg is not None and rg is not g else fmt(res), "a copy")
         if rg is not None:
-            removed = ["neg", "view", "transpose", "reshape"] + ([] if with_bwd else ["gscale_differs"])
+            removed = ["output", "outputs_view", "transpose", "reshape"] + ([] if with_bwd else ["gscale_differs"])
             exp = expected(g, removed, bypass=True)
             report.add("R2-result", cons, got(rg) == exp, f"{lab}: float nodes with exactly one float-tensor input of the same mean |x| (forward and, when recorded, backward) are bypassed; nothing else", got(rg), exp)
         closes = [e for e in it.events if e.kind == "call" and e["callee"] == "math.isclose"]
@@ -192,7 +192,7 @@ def check(report: Report, repo: Repo) -> None:
     raised = [e["exc"] for e in it.events if e.kind == "raise"]
     report.add("R1-no-raise", cons, not raised and res is not BOTTOM, "must not raise; " + "; ".join(raised), raised, [])
     report.add("R3-copy-discipline", f"{cons}::in-place", res is g.obj, "selective pruning is documented to cut in place and return the same graph", "same" if res is g.obj else fmt(res), "same graph")
-    exp = expected(g_ref, ["neg", "size"], bypass=False)
+    exp = expected(g_ref, ["output", "size"], bypass=False)
     report.add("R2-result", cons, got(g) == exp, "nodes whose target is selected are removed and their edges cut (None), everything else in order", got(g), exp)
 
     # ------------------------------------------------ predicates on metrics (one-sided bwd => different),
